@@ -51,7 +51,7 @@ def is_lock_acquire(msg):
 
 
 class Actor:
-    __slots__ = ("conn", "pid", "state", "msg", "info", "blocked_on", "wake", "spawn_pid", "role", "node", "host", "top", "n", "prio", "cmd", "argv")
+    __slots__ = ("conn", "pid", "state", "msg", "info", "blocked_on", "wake", "spawn_pid", "role", "node", "host", "top", "n", "prio", "cmd", "argv", "parked_until", "parked_at")
 
     def __init__(self, conn):
         self.conn = conn
@@ -70,6 +70,8 @@ class Actor:
         self.prio = 0.0
         self.cmd = ""
         self.argv = []
+        self.parked_until = 0
+        self.parked_at = -1
 
 
 def ancestors(pid):
@@ -185,6 +187,7 @@ class Sim:
         self.killnode_done = False
         self.poll_streak = 0
         self.time_jumps = 0
+        self.parks = 0
         self.pct_points = set()
         self.user_done = {"try_submit": 0, "show_status": 0}
         self.stuck = False
@@ -718,6 +721,9 @@ class Sim:
             self.viol("C14", "sbatch-after-cancel", f"sbatch {script} ({names}) by {a.cmd[:30]} child of {r['cmd'] if r else '?'}@{a.host} after the submission was marked canceled")
         return self.reply(a, out=f"Submitted batch job {bid}\n", rc=0)
 
+    LIVE_PENDING = ["PENDING", "CONFIGURING", "REQUEUED", "REQUEUE_HOLD", "REQUEUE_FED", "RESV_DEL_HOLD"]
+    LIVE_RUNNING = ["RUNNING", "SUSPENDED", "STOPPED", "RESIZING", "SIGNALING", "STAGE_OUT"]
+
     def on_squeue(self, a, msg):
         argv = msg["argv"]
         r = self.round_of(msg)
@@ -738,14 +744,19 @@ class Sim:
         if "-j" in argv:
             only = argv[argv.index("-j") + 1]
         lines = []
+        full = self.scen.get("squeue_vocab") == "full"
         for bid in act:
             if only is not None and str(bid) != only:
                 continue
             b = self.batches[bid]
+            st = b["state"]
+            if full and self.rng.random() < 0.5:
+                # a live batch may be reported in any live state of the SLURM vocabulary (suspended, requeued, resizing ...)
+                st = self.rng.choice(self.LIVE_PENDING if st == "PENDING" else self.LIVE_RUNNING)
             if three:
-                lines.append(f"{bid}   batch{bid}   {b['state']}")
+                lines.append(f"{bid}   batch{bid}   {st}")
             else:
-                lines.append(f"{bid}   {b['state']}")
+                lines.append(f"{bid}   {st}")
         out = "".join(l + "\n" for l in lines)
         if r is not None:
             s = {str(b) for b in act}
@@ -1161,6 +1172,19 @@ class Sim:
         self.pending = {p: t_ for p, t_ in self.pending.items() if not (isinstance(t_, tuple) and not os.path.exists(f"/proc/{p}"))}
 
     # ------------------------------------------------------------------ choice
+    def holds_lock(self, a):
+        """Does this actor hold one of the file locks?  (A process is never parked while it holds a lock: that would only
+        manufacture lock timeouts, i.e. a sleep inside one coarse lock.)"""
+        for lf in [os.path.join(self.out, "cluster_config.json.lock"), os.path.join(self.out, "processed_results.csv.lock")] + glob.glob(os.path.join(self.out, "results", "*.lock")):
+            try:
+                with open(lf) as f:
+                    first = f.readline().strip()
+                if first and int(first) == a.pid:
+                    return True
+            except (OSError, ValueError):
+                continue
+        return False
+
     def lock_held_by_live_actor(self):
         pids = {a.pid for a in self.actors.values() if a.state == "waiting" and not (a.msg and a.msg["k"] == "sleep")}
         for lf in [os.path.join(self.out, "cluster_config.json.lock"), os.path.join(self.out, "processed_results.csv.lock")] + glob.glob(os.path.join(self.out, "results", "*.lock")):
@@ -1173,15 +1197,37 @@ class Sim:
                 continue
         return False
 
+    PARK_POINTS = re.compile(r"(\.lock$|results_batch_\d+\.csv$|processed_results\.csv$|job_status\.json$|cluster_config\.json$|results$|results\.json$)")
+
+    def park_point(self, msg):
+        """Long-delay adversary: points between critical sections at which a slow process would be overtaken."""
+        if msg["k"] == "popen":
+            return os.path.basename((msg.get("argv") or ["?"])[0]) in ("squeue", "sbatch", "scancel", "jade")
+        if msg["k"] == "io":
+            return bool(self.PARK_POINTS.search(os.path.basename(msg.get("p", ""))))
+        return False
+
     def candidates(self):
         pol = self.scen.get("policy") or {}
         cands = []
         sleepers = []
+        parked = []
+        park_p = pol.get("park_p", 0)
         for a in self.actors.values():
             if a.state == "waiting":
                 if a.msg["k"] == "sleep" and a.wake > self.vnow:
                     sleepers.append(a)
                     continue
+                if park_p and a.role == "py":
+                    if a.parked_until > self.steps:
+                        parked.append(a)
+                        continue
+                    if a.parked_at != a.n and self.park_point(a.msg) and self.rng.random() < park_p and not self.holds_lock(a):
+                        a.parked_at = a.n
+                        a.parked_until = self.steps + self.rng.choice([30, 100, 300, 1000])
+                        self.parks += 1
+                        parked.append(a)
+                        continue
                 w = 1.0
                 if a.msg["k"] == "jobrun":
                     if self.frozen_finishes:
@@ -1193,6 +1239,11 @@ class Sim:
                 cands.append((pol.get("start_w", 0.5), "start", bid))
             elif b["state"] == "RUNNING" and b.get("kill_pending"):
                 cands.append((pol.get("scancel_w", 0.3), "kill", bid))
+        if parked and not any(c[1] == "actor" and c[2].msg["k"] != "jobrun" for c in cands):
+            # nobody else can move: the parked process with the earliest deadline continues
+            a = min(parked, key=lambda x: x.parked_until)
+            a.parked_until = 0
+            cands.append((1.0, "actor", a))
         f = self.scen.get("faults") or {}
         if f.get("node_kill") and self.fault_budget > 0:
             for bid, b in self.batches.items():
@@ -1520,6 +1571,10 @@ class Sim:
             rerun = not (self.resub and ep > 0) or name in self.resub["selected"]
             if name not in final:
                 self.viol("C03", "no-result", f"no result for {name}")
+                if cls == "canceled":
+                    self.viol("C04", "canceled-result-missing", f"{name} is flagged and a blocker failed or was canceled, but it has no 'canceled' result (started {nl} times)")
+                elif rerun and nl != 1:
+                    self.viol("C04", "job-not-started-once", f"{name} should run exactly once (its blockers have outcomes by the model), was started {nl} times and has no result")
                 continue
             got = final[name]
             if got[0] != cls:
@@ -1687,6 +1742,7 @@ class Sim:
             "edges_in": edges_in,
             "cancel_sites": getattr(self, "cancel_sites", None),
             "time_jumps": self.time_jumps,
+            "parks": self.parks,
             "nshared": self.nshared,
             "sig": self.sig.hexdigest()[:16],
             "epochs": self.epoch + 1,
